@@ -8,6 +8,10 @@ for f in sorted(glob.glob(os.path.join(os.path.dirname(os.path.abspath(__file__)
     pid = os.path.basename(f)[:-5]
     d = json.load(open(f))
     if d.get('enabled', True) and all(k in d for k in ('text', 'note', 'technique')): CHECKS[pid] = d
+# only checks the orchestrator has run itself on the unchanged tree are registered (tools/registered.txt)
+REG = set(open(os.path.join(os.path.dirname(os.path.abspath(__file__)), 'registered.txt')).read().split())
+for pid in list(CHECKS):
+    if pid not in REG: del CHECKS[pid]
 checks = []
 for pid in ALL:
     if pid not in CHECKS: continue
